@@ -300,6 +300,50 @@ def cli_isolation_records(S, seed):
                                              'status': o['status'] if o['end'] == 'ok' else -1,
                                              'user_home_same': before == after, 'userhome': userhome,
                                              'keyfile': kf, 'end': o['end'], 'exc': o['exc']})
+                    # ---- growth: `gemato openpgp-verify` on 1-2 files (signed by `valid`, unsigned, tampered)
+                    texts = {'good': S['signed']['valid'], 'unsigned': S['body'],
+                             'tampered': S['signed']['valid'].replace('DATA a.txt 3', 'DATA a.txt 4')}
+                    for combo in (('good',), ('unsigned',), ('tampered',), ('good', 'good'), ('good', 'tampered'),
+                                  ('tampered', 'good')):
+                        paths = []
+                        for j, t in enumerate(combo):
+                            fp_ = os.path.join(base, 'opv-%d-%s.txt' % (j, t))
+                            with open(fp_, 'w') as f:
+                                f.write(texts[t])
+                            paths.append(fp_)
+                        before = uh.snapshot()
+                        o = gem.run_cli(['openpgp-verify', '-K', keyfiles[kf], '-R'] + paths)
+                        uh.kill()
+                        recs.append({'kind': 'cliopv', 'signer_in_keyfile': kf in ('signer', 'both'),
+                                     'files': list(combo), 'status': o['status'] if o['end'] == 'ok' else -1,
+                                     'user_home_same': before == uh.snapshot(), 'userhome': userhome, 'keyfile': kf,
+                                     'end': o['end'], 'exc': o['exc']})
+                    # ---- growth: `gemato gpg-wrap`: the child sees exactly the keys of the key file; its exit
+                    # status is passed on
+                    outp = os.path.join(base, 'wrap.out')
+                    for child_rc in (0, 3):
+                        if os.path.exists(outp):
+                            os.unlink(outp)
+                        before = uh.snapshot()
+                        o = gem.run_cli(['gpg-wrap', '-K', keyfiles[kf], '-R', '--', 'sh', '-c',
+                                         'gpg --batch --with-colons --list-keys > %s 2>/dev/null; exit %d' % (outp, child_rc)])
+                        uh.kill()
+                        seen = []
+                        if os.path.exists(outp):
+                            with open(outp) as f:
+                                pub = False
+                                for line in f:
+                                    fl = line.split(':')
+                                    if fl[0] == 'pub':
+                                        pub = True
+                                    elif fl[0] == 'fpr' and pub:
+                                        seen.append(fl[9])
+                                        pub = False
+                        want = sorted(S['keys'][k] for k in {'signer': ['valid'], 'other': ['other'], 'both': ['other', 'valid']}[kf])
+                        recs.append({'kind': 'cliwrap', 'keys_seen_ok': sorted(seen) == want, 'child_rc': child_rc,
+                                     'status': o['status'] if o['end'] == 'ok' and isinstance(o['status'], int) else -1,
+                                     'user_home_same': before == uh.snapshot(), 'userhome': userhome, 'keyfile': kf,
+                                     'end': o['end'], 'exc': o['exc']})
             finally:
                 uh.close()
     finally:
